@@ -1,5 +1,5 @@
 HOOK_COMMITS = ["7de202d", "7f6c320", "bd5f58f", "f5c511f", "6cf08df", "6a57454"]
-FIX_COMMITS = ["7a73b90", "307c7cf", "73e9739", "b6ad768", "06a0422", "37593fd", "b26bda1", "ef4414e", "83534a3", "9d32858", "8df6799", "bfa46be", "d5169bc", "e984a30", "8e975df", "0e9fd95", "93bc5a2", "0df18c2", "dae6c16", "f32a1a0", "6b14b06", "641f662", "5fd891f", "12b678f", "5af4846", "35b9151", "1a0d573", "4dd26bc", "3419442", "a44aef0", "bfa15ff", "db4d047", "05ea952", "1883869", "befdf8c", "bcd23fd", "1927f9b", "ac62d90", "f75f317", "6a8014c", "daaa51f", "ba3fa7b", "5bbf9b9", "92b62e9", "81b93bb", "ccfba48", "848110b", "1f0fadd"]
+FIX_COMMITS = ["7a73b90", "307c7cf", "73e9739", "b6ad768", "06a0422", "37593fd", "b26bda1", "ef4414e", "83534a3", "9d32858", "8df6799", "bfa46be", "d5169bc", "e984a30", "8e975df", "0e9fd95", "93bc5a2", "0df18c2", "dae6c16", "f32a1a0", "6b14b06", "641f662", "5fd891f", "12b678f", "5af4846", "35b9151", "1a0d573", "4dd26bc", "3419442", "a44aef0", "bfa15ff", "db4d047", "05ea952", "1883869", "befdf8c", "bcd23fd", "1927f9b", "ac62d90", "f75f317", "6a8014c", "daaa51f", "ba3fa7b", "5bbf9b9", "92b62e9", "81b93bb", "ccfba48", "848110b", "1f0fadd", "2e48913"]
 
 NOTE_COMMON = ("Trusted: Lean kernel (axioms propext/Classical.choice/Quot.sound only), the hand-written model's "
                "fidelity outside the sampled correspondence, rustc/std and third-party crates as black boxes, the guarded hooks.")
@@ -95,7 +95,7 @@ CLAIMS = {
                  "grapheme's length, change only single ASCII letters and only inside the span; g? keeps the text outside the span, maps char by char, is an "
                  "involution and fixes non-letters. Every run traces the real editor at LineBuf::exec_cmd (MotionKind, verb, register, text, real segmentation, "
                  "cursor/clamp, all registers before and after) and checks each pair directly against the property and against the Lean verb model.",
-        "note": NOTE_COMMON + " Simple motions (h l 0 ^ $ | gg G, whole buffer) are modelled (Model/Motions.lean): l and h never cross or land on a line terminator, every position they produce lies inside the text, so an operator applied to them gets a range s <= e <= len; the model's MotionKind is compared with the real eval_motion's on every such command of the run. For the other motions and text objects the motion engine (which span a motion denotes) is an input here, not verified; puts from line/block registers and visual-block "
+        "note": NOTE_COMMON + " Simple motions (h l 0 ^ $ | gg G, whole buffer) are modelled (Model/Motions.lean): l and h never cross or land on a line terminator, every position they produce lies inside the text, so an operator applied to them gets a range s <= e <= len; the model's MotionKind is compared with the real eval_motion's on every such command of the run. The word scanners (w W e E b B, counts, cw) are modelled over character classes (Model/Words.lean): w/W never move backwards and land on a non-blank or at the end, b/B never move forwards, results inside the text; compared with the real scanners on every word motion of the run. For the other motions and text objects the motion engine (which span a motion denotes) is an input here, not verified; puts from line/block registers and visual-block "
                 "register contents are compared on the implementation only through the direct oracle (text side), not modelled; Indent/Dedent/JoinLines/Equalize and ex "
                 "verbs are outside C08's operator list (ex is C16). Pre-states with a stale offset cache are skipped and counted (C09 owns freshness).",
         "technique": "Lean 4 proof (frame theorems quantified over MotionKind, registers and buffers) + per-verb correspondence and direct property oracle through the exec_cmd trace hook",
